@@ -19,7 +19,26 @@ theorem C18_preprocess_segments (segs : List Seg) (h : wfList segs = true) :
   have e : (⟨.idle, [], 0, table [], []⟩ : PS) = {} := by simp [table]
   rw [e] at this
   simp only [preprocess, expected, keys]
-  rw [this.1, this.2]
+  rw [this.1, this.2.1]
+
+/-- The segment grammar is complete: a script is the text of a well-formed segment list exactly when
+    the scan ends outside literals and embeds (no unterminated quote, no unterminated `${`). -/
+theorem C18_closed_iff_segments (s : List Char) :
+    closedScript s = true ↔ ∃ segs, wfList segs = true ∧ assemble segs = s := by
+  constructor
+  · intro h
+    exact segments_exist s (by simpa [closedScript, Closed] using h)
+  · rintro ⟨segs, hw, rfl⟩
+    have := (go_segs segs hw [] []).2.2
+    have e : (bnd [] [] : PS) = {} := by simp [bnd, table]
+    rw [e] at this
+    simpa [closedScript, Closed] using this
+
+/-- Hence the substitution theorem speaks about every closed script. -/
+theorem C18_preprocess_closed (s : List Char) (h : closedScript s = true) :
+    ∃ segs, wfList segs = true ∧ assemble segs = s ∧ preprocess s = expected segs := by
+  obtain ⟨segs, hw, rfl⟩ := (C18_closed_iff_segments s).1 h
+  exact ⟨segs, hw, rfl, C18_preprocess_segments segs hw⟩
 
 /-- The code string, segment by segment: an embed becomes its variable name, every other segment —
     code, quoted literal (with any `${...}` or `#` inside), comment (with any `${...}` or quote inside)
@@ -183,6 +202,10 @@ example : preprocess "a = ${ 001001 } + '${x}' # ${y}\nb = ${001001} * ${%length
 
 example : wfList [.code "a = ".toList, .embed " 001001 ".toList, .code " + ".toList, .sq "${x}".toList,
     .code " ".toList, .comment " ${y}".toList true, .code "b$".toList, .embed "%length".toList] = true := by decide
+
+example : closedScript "a = '${x}' # it's ${y}\nb = ${c}".toList = true := by decide
+example : closedScript "a = 'b".toList = false := by decide
+example : closedScript "a = ${b".toList = false := by decide
 
 example : metadataOnly (preprocess "print(${%length}, ${ %edition })".toList).2 = true := by decide
 example : metadataOnly (preprocess "print(${%length}, ${001001})".toList).2 = false := by decide
